@@ -8,6 +8,7 @@ Values of an unexpected shape are reported in the observation's ``err`` list
 (the clauses reject observations with errors); they are never judged here.
 """
 import hashlib
+import numbers
 import os
 import sys
 from fractions import Fraction
@@ -50,9 +51,9 @@ class Labeling:
         return self._back[c]
 
     def atime(self, ct):
-        if isinstance(ct, bool) or not isinstance(ct, int):
+        if isinstance(ct, bool) or not isinstance(ct, numbers.Integral):
             raise KeyError(ct)
-        return ct - self.shift
+        return int(ct) - self.shift
 
     def prime(self, n):
         for i in range(1, n + 1):
@@ -166,13 +167,36 @@ def apply_call(g, L, c, form="method"):
 
 
 # --------------------------------------------------------------------------- projection
+# Container kinds are not compared (DESIGN.md 1.1): any sequence is read as a sequence, any mapping as a
+# mapping, any integral / boolean scalar type (numpy included) as int / bool.
+import numbers  # noqa: E402
+from collections.abc import Mapping  # noqa: E402
+
+
+def as_bool(x):
+    """True / False for bool-like scalars, None otherwise"""
+    if isinstance(x, bool) or type(x).__name__ == "bool_":
+        return bool(x)
+    return None
+
+
+def as_int(x):
+    """int for integral scalars that are not booleans, None otherwise"""
+    if as_bool(x) is not None:
+        return None
+    if isinstance(x, numbers.Integral):
+        return int(x)
+    return None
+
+
 def _rat(x, err, tag):
-    if isinstance(x, bool):
+    if as_bool(x) is not None:
         err.append(tag + "bool")
         return None
-    if isinstance(x, int):
-        return [x, 1]
-    if isinstance(x, float):
+    if as_int(x) is not None:
+        return [as_int(x), 1]
+    if isinstance(x, numbers.Real) and not isinstance(x, Fraction):
+        x = float(x)
         if x != x or x in (float("inf"), float("-inf")):
             err.append(tag + "nonfinite")
             return None
@@ -187,7 +211,7 @@ def _rat(x, err, tag):
 def _iv(L, tl, err, tag):
     """timeline -> [[a,b],...] in abstract instants"""
     out = []
-    if not isinstance(tl, list):
+    if not isinstance(tl, (list, tuple)):
         err.append(tag + "not-list")
         return out
     for it in tl:
@@ -205,7 +229,7 @@ def _tl_entries(L, items, err, tag):
     out = []
     try:
         for it in items:
-            if not (isinstance(it, tuple) and len(it) == 3 and isinstance(it[2], dict) and 't' in it[2]):
+            if not (isinstance(it, (tuple, list)) and len(it) == 3 and isinstance(it[2], Mapping) and 't' in it[2]):
                 err.append(tag + "entry-shape")
                 continue
             try:
@@ -223,7 +247,7 @@ def _stream(L, it, err, tag):
     out = []
     try:
         for x in it:
-            if not (isinstance(x, tuple) and len(x) == 4 and x[2] in ("+", "-")):
+            if not (isinstance(x, (tuple, list)) and len(x) == 4 and x[2] in ("+", "-")):
                 err.append(tag + "event-shape")
                 continue
             try:
@@ -312,16 +336,16 @@ def observe(g, L, known, grid, light=False):
                 except Exception as ex:
                     err.append("has:exc:" + exc_name(ex))
                     break
-                if r is True:
+                if as_bool(r) is True:
                     ts.append(t)
-                elif r is not False:
+                elif as_bool(r) is None:
                     err.append("has:not-bool")
             has.append({"u": u, "v": v, "ts": ts})
             try:
                 r = g.has_interaction(cu, cv)
-                if r is True:
+                if as_bool(r) is True:
                     flat.append([u, v])
-                elif r is not False:
+                elif as_bool(r) is None:
                     err.append("flat:not-bool")
             except Exception as ex:
                 err.append("flat:exc:" + exc_name(ex))
@@ -333,9 +357,7 @@ def observe(g, L, known, grid, light=False):
     try:
         cids = g.temporal_snapshots_ids()
         rawparts.append(repr(cids))
-        if not isinstance(cids, list):
-            err.append("ids:not-list")
-            cids = list(cids)
+        cids = list(cids)
         for c in cids:
             try:
                 ids.append(L.atime(c))
@@ -348,7 +370,7 @@ def observe(g, L, known, grid, light=False):
     try:
         d = g.interactions_per_snapshots()
         rawparts.append(repr(list(d.items())) if isinstance(d, dict) else repr(d))
-        if not isinstance(d, dict):
+        if not isinstance(d, Mapping):
             err.append("cnt:not-dict")
         else:
             for k, val in d.items():
@@ -371,10 +393,10 @@ def observe(g, L, known, grid, light=False):
             err.append("cntAt:exc:" + exc_name(ex))
         try:
             n_ = g.number_of_nodes(L.time(t))
-            if isinstance(n_, bool) or not isinstance(n_, int):
+            if as_int(n_) is None:
                 err.append("nn:type")
             else:
-                nn.append([t, n_])
+                nn.append([t, as_int(n_)])
         except Exception as ex:
             err.append("nn:exc:" + exc_name(ex))
     o["cntAt"] = cntAt
